@@ -18,7 +18,7 @@ from common import f2h, h2f, VERIF, REPO
 
 import autofit as af
 from autoconf import conf
-from autoconf.directory_config import RecursiveConfig
+from autoconf.directory_config import RecursiveConfig, PriorConfigWrapper
 from autoconf.exc import ConfigException
 from autofit.mapper.model import ModelInstance
 from autofit.mapper.prior.tuple_prior import TuplePrior
@@ -119,12 +119,25 @@ def check_tables(ctx):
     return chain
 
 
+_JSON_CONFIGS = {}
+
+
+def _json_config(directory):
+    from autoconf.json_prior.config import JSONPriorConfig
+    key = str(directory)
+    if key not in _JSON_CONFIGS:
+        _JSON_CONFIGS[key] = JSONPriorConfig.from_directory(directory)
+    return _JSON_CONFIGS[key]
+
+
 @contextlib.contextmanager
 def chain_in_force(names, scratch_dir):
     saved = conf.instance.configs
     dirs = [scratch_dir if n == "scratch" else DIRS[n] for n in names]
     try:
         conf.instance.configs = [RecursiveConfig(str(d)) for d in dirs]
+        # what `conf.instance.prior_config` would build now, without parsing every directory again for every chain
+        conf.instance._prior_config = PriorConfigWrapper([_json_config(Path(d) / "priors") for d in dirs])
         yield
     finally:
         conf.instance.configs = saved
